@@ -360,9 +360,13 @@ func c11StmtPositions(prog *ast.Node, r *ast.Rendering) []c11Pos {
 			}
 			return
 		case "while", "for", "forin":
-			// the parser is "inside a loop" from the keyword on, conditions included
-			for _, c := range n.C {
-				walk(c, inFn, loops+1)
+			// only the body is "inside the loop": the clauses of the header are not
+			for i, c := range n.C {
+				if i == len(n.C)-1 {
+					walk(c, inFn, loops+1)
+				} else {
+					walk(c, inFn, loops)
+				}
 			}
 			return
 		}
@@ -387,7 +391,7 @@ func genC11Splice(t *rapid.T) *C11Splice {
 	sep := ast.Tok{Kind: ast.TSep}
 	positions := c11StmtPositions(base.Prog, r)
 	recipe := rapid.SampledFrom([]string{"illegal-char", "stray-token", "return-at-rule-level", "break-outside-loop", "continue-outside-loop",
-		"invalid-assignment", "unterminated-string", "unterminated-regex", "unbalanced-curly"}).Draw(t, "recipe")
+		"invalid-assignment", "unterminated-string", "unterminated-regex", "unbalanced-curly", "loop-control-in-loop-header", "invalid-assignment", "for-in-without-in"}).Draw(t, "recipe")
 	var toks []ast.Tok
 	pickPos := func(filter func(p c11Pos) bool) (c11Pos, bool) {
 		var cands []c11Pos
@@ -434,9 +438,41 @@ func genC11Splice(t *rapid.T) *C11Splice {
 			break
 		}
 		toks = insertToks(r, p.tok, ast.Tok{Text: strings.SplitN(recipe, "-", 2)[0], Kind: ast.TWord}, sep)
+	case "loop-control-in-loop-header":
+		// break / continue in a match block that sits in the header of a loop which is
+		// itself not inside a loop: the header is not part of the loop's body
+		p, ok := pickPos(func(p c11Pos) bool { return p.loops == 0 })
+		if !ok {
+			fallback = true
+			break
+		}
+		kw := rapid.SampledFrom([]string{"break", "continue"}).Draw(t, "lckw")
+		m := "match ( 1 ) { c11w => { " + kw + " } }"
+		form := rapid.SampledFrom([]string{
+			"while ( " + m + " ) { }",
+			"for ( c11i = " + m + " ; false ; ) { }",
+			"for ( ; " + m + " ; ) { }",
+			"for ( c11i = 0 ; false ; " + m + " ) { }",
+			"for ( c11v in " + m + " ) { }",
+			"for ( c11v , c11k in " + m + " ) { }",
+			"while ( false ) { } " + kw,
+		}).Draw(t, "lcform")
+		toks = insertToks(r, p.tok, raw(form), sep)
+		recipe += ":" + form
+	case "for-in-without-in":
+		p, ok := pickPos(func(c11Pos) bool { return true })
+		if !ok {
+			fallback = true
+			break
+		}
+		form := rapid.SampledFrom([]string{"for ( c11v [ 1 , 2 ] ) { }", "for ( c11v , c11k [ 1 , 2 ] ) { }", "for ( c11v , c11k of [ 1 ] ) { }", "for ( c11v c11k in [ 1 ] ) { }"}).Draw(t, "finform")
+		toks = insertToks(r, p.tok, raw(form), sep)
+		recipe += ":" + form
 	case "invalid-assignment":
-		form := rapid.SampledFrom([]string{"1 = 2", "\"s\" = 2", "a + b = 2", "[ a ] = 2", "( a == b ) = 2", "true = 1", "{ } = 2"}).Draw(t, "target")
-		needStart := strings.HasPrefix(form, "[") || strings.HasPrefix(form, "(") || strings.HasPrefix(form, "{")
+		form := rapid.SampledFrom([]string{"1 = 2", "\"s\" = 2", "a + b = 2", "[ a ] = 2", "( a == b ) = 2", "true = 1", "{ } = 2",
+			"1 += 2", "a + b -= 2", "\"s\" *= 2", "x = - a = 3", "x = ! a = 3", "x = - a += 3", "1 ++", "x = 2 --", "++ 1", "x = -- \"s\"", "a ( ) = 3", "x = a ( ) ++", "null /= 2", "x = a is number = 2",
+			"x = match ( 1 ) { c11w => 2 } = 3", "a . b ( ) += 1", "x = [ 1 ] ++", "x = ( a + b ) ++", "++ ( a . b ( ) )"}).Draw(t, "target")
+		needStart := strings.HasPrefix(form, "[") || strings.HasPrefix(form, "(") || strings.HasPrefix(form, "{") || strings.HasPrefix(form, "++")
 		p, ok := pickPos(func(p c11Pos) bool { return !needStart || p.blockStart })
 		if !ok {
 			fallback = true
